@@ -74,6 +74,9 @@ thread_local! {
 
 pub struct Arena;
 
+/// Debug aid: print a backtrace when the block with this sequence number is allocated.
+pub static TRACE_SEQ: std::sync::atomic::AtomicI64 = std::sync::atomic::AtomicI64::new(-1);
+
 fn arena_base(index: usize) -> usize {
     BASE + index * STRIDE
 }
@@ -199,7 +202,7 @@ pub fn end() -> Report {
                 record(st, ErrKind::RedZone, user, size as u64, 1);
             }
             if (*hdr).state.load(Ordering::Relaxed) == 1 {
-                rep.leaks.push((user, (*hdr).size, (*hdr).align));
+                rep.leaks.push((i, (*hdr).size, (*hdr).align));
             }
         }
         rep.leaked_blocks = (*st).live_blocks.load(Ordering::Relaxed);
@@ -316,6 +319,10 @@ unsafe impl GlobalAlloc for Arena {
         std::ptr::write_bytes(user as *mut u8, POISON_FRESH, size);
         std::ptr::write_bytes((user + size) as *mut u8, CANARY, RED);
         *blocks_of((*st).index).add((*st).nblocks) = user;
+        if TRACE_SEQ.load(Ordering::Relaxed) == (*st).nblocks as i64 {
+            let bt = with_system(|| std::backtrace::Backtrace::force_capture().to_string());
+            with_system(|| eprintln!("ARENA-TRACE block #{} size {} align {} at {:#x}\n{}", (*st).nblocks, size, layout.align(), user, bt));
+        }
         (*st).nblocks += 1;
         (*st).total_allocs += 1;
         (*st).live_blocks.fetch_add(1, Ordering::Relaxed);
